@@ -22,8 +22,21 @@ from pbt import origins as og
 # --------------------------------------------------------------------------- values
 
 
+class NodeRef:
+    """placeholder for "the n-th node built so far" (resolved by Built; a fresh foreign leaf when n is
+    odd or nothing has been built yet)"""
+
+    def __init__(self, n: int) -> None:
+        self.n = n
+
+    def __repr__(self) -> str:
+        return f"NodeRef({self.n})"
+
+
 def decode_value(v: Any) -> Any:
     if isinstance(v, dict):
+        if "$ref" in v:
+            return NodeRef(v["$ref"])
         if "$e" in v:
             return getattr(M.load().Color, v["$e"])
         if "$se" in v:
@@ -70,6 +83,10 @@ def typed_value(v: Any) -> Any:
         return ("list", tuple(typed_value(x) for x in v))
     if type(v).__name__ == "Bomb":
         return ("bomb", v.tag)
+    if isinstance(v, NodeRef):
+        return ("ref", v.n)
+    if hasattr(v, "content_id") and hasattr(v, "origin"):
+        return ("node-object", id(v))
     return ("other", type(v).__name__, repr(v))
 
 
@@ -234,6 +251,7 @@ class Built:
         self.sources = sources
         self.fresh_origins = fresh_origins  # every origin gets its own (equal but distinct) source objects
         self.live: dict[int, Any] = {}
+        self.foreign: list[Any] = []  # nodes referenced from properties only
         self.root_e = root_e
         self.root = self._build(root_e)
 
@@ -252,12 +270,24 @@ class Built:
             else:
                 kw[f.name] = self._build(v)
         for k, v in e.props.items():
-            kw[k] = v
+            kw[k] = self._resolve(v)
         node = M.cls(e.cls)(origin=og.build_origin(e.origin, self.sources, self.fresh_origins), **kw)
         if e.det:
             node.detach_self()
         self.live[e.uid] = node
         return node
+
+    def _resolve(self, v: Any) -> Any:
+        if isinstance(v, NodeRef):
+            built = list(self.live.values())
+            if v.n % 2 or not built:
+                f = M.cls("LeafA")(v=600 + v.n % 7)
+                self.foreign.append(f)
+                return f
+            return built[(v.n // 2) % len(built)]
+        if isinstance(v, tuple) and any(isinstance(x, NodeRef) for x in v):
+            return tuple(self._resolve(x) for x in v)
+        return v
 
     def of(self, e: ENode) -> Any:
         return self.live[e.uid]
@@ -277,7 +307,11 @@ def live_children(node: Any) -> list[tuple[Any, str, int | None]]:
     from pyoak.node import ASTNode
 
     out = []
+    cn = type(node).__name__
+    value_fields = {f.name for f in M.prop_fields(cn)} if cn in M.BY_NAME and type(node) is M.cls(cn) else set()
     for f in dataclasses.fields(node):
+        if f.name in value_fields:
+            continue  # a property that happens to hold a node is a value, not a child
         v = getattr(node, f.name)
         if isinstance(v, ASTNode):
             out.append((v, f.name, None))
@@ -392,6 +426,8 @@ def st_value(kind: str, strs: Any = None):
         return st.sampled_from(["a", 1])
     if kind == "bomb":
         return st.integers(0, 5).map(lambda n: {"$bomb": n})
+    if kind == "anyref":
+        return st.none()  # node-valued only where a generator asks for it (TreeGen.refs)
     raise ValueError(kind)
 
 
@@ -414,11 +450,13 @@ class TreeGen:
         origin_index: int = 30,
         extra_leaves: tuple[str, ...] = (),
         detach_rate: float = 0.0,
+        refs: bool = False,
         bombs: bool = False,
     ) -> None:
         self.bombs = bombs
         self.extra_leaves = extra_leaves
         self.detach_rate = detach_rate
+        self.refs = refs
         self.leaves = leaves
         self.width = width
         self.share = share
@@ -565,6 +603,12 @@ class TreeGen:
                 {"c": st.just("BombNode"), "o": self.origin(), "p": self.props("BombNode"),
                  "k": st.fixed_dictionaries({"child": opt, "items": items})})
             opts += [bomb, bomb]
+        if self.refs:
+            ref = st.integers(0, 40).map(lambda n: {"$ref": n})
+            target = st.one_of(st.none(), ref, ref, st.lists(ref, min_size=1, max_size=3).map(lambda xs: {"$t": xs}))
+            r = st.fixed_dictionaries({"c": st.just("Ref"), "o": self.origin(), "p": st.fixed_dictionaries({"target": target}),
+                                       "k": st.fixed_dictionaries({"kid": opt})})
+            opts += [r, r]
         if self.detach_rate > 0:
             # a detached leaf directly followed by a twin that takes over its id and differs
             # only in a non-comparable property
